@@ -55,3 +55,21 @@ Definition panic_sites_same_set : bool :=
   pkeys_subset (map fst model_panic_sites) PanicGen.sites && pkeys_subset PanicGen.sites (map fst model_panic_sites).
 Lemma panic_sites_agree : panic_sites_same_set = true.
 Proof. vm_compute. reflexivity. Qed.
+
+(* ------------------------------------------------------------ the unmodelled BCL walker: reviewed census *)
+From J5V.gen Require WalkerGen.
+From J5V.model Require Import CmpbWalker.
+(* every syntactic panic source go/types sees in internal/bcl/parse.go and internal/bcl/internal/walker/...
+   (gen/WalkerGen.v) has a review note in model/CmpbWalker.v and every note still has its row; the
+   functions the crash stream must execute exist.  A new index / dereference / panic( in the walker breaks
+   this lemma until it is reviewed; a reviewed function the stream stops executing breaks the CWalkCov case. *)
+Lemma walker_sites_agree : walker_sites_same_set = true.
+Proof. vm_compute. reflexivity. Qed.
+Lemma walker_required_funcs_exist : required_funcs_exist = true.
+Proof. vm_compute. reflexivity. Qed.
+(* the walker rows of the explicit-panic census are among the reviewed rows *)
+Lemma walker_panic_rows_reviewed :
+  forallb (fun r => match r with (p, f, fn, arg) =>
+     orb (negb (String.eqb p "walker")) (existsb (wkey_eqb (p, f, fn, "panic", arg)) (map fst walker_reviewed)) end)
+    PanicGen.sites = true.
+Proof. vm_compute. reflexivity. Qed.
